@@ -4,10 +4,11 @@ no_op_static_scatter_nd_rule  (ScatterND(data, const indices, updates) -> Identi
   drawn: dtype f32/f64/f16/i32/i64/bool; data shape [N]+rest, N 1..4, rest (), (1,), (2,), (3,), (2,2); data as graph input
   (static dims / symbolic first dim "N" / anonymous first dim) / Constant / initializer / intermediate (Neg or Identity of an
   input: shape known only through value_info); indices = arange(N)[:,None] in order / permuted / partial (first k<N rows) /
-  with a duplicate row / negative (i-N) / shape [1,N,1] / index depth 2 ([i,0] rows) / in order but reversed-then-sorted
-  (= in order, computed by Identity of a constant) ; indices as Constant / initializer / overridable initializer-input /
-  graph input (non-constant); updates as input (same or different symbolic name than data) / constant / computed;
+  with a duplicate row / negative (i-N) / shape [1,N,1] / index depth 2 ([i,0] rows); indices as Constant / initializer /
+  overridable initializer-input / graph input (non-constant) / Identity(initializer) (not a constant for the rule);
+  updates as input (same / different symbolic name than data, anonymous) / Constant / initializer / overridable / Identity(input);
   reduction attribute absent / "none" / "add" / "mul" (opset>=16) / "max" / "min" (opset>=18); extra consumer of data.
+  One "deviation" (indices / indices source / reduction) is drawn per host, or all at once ("any").
   NOT enumerated: bfloat16/uint dtypes, string tensors, N>4, index depth > 2, zero-size dims.
 
 no_op_dynamic_scatter_nd_rule (ScatterND(T(data), Unsqueeze(Range(0, Gather(Shape(data), axis), 1), [-1]), updates, reduction="none"))
@@ -16,7 +17,7 @@ no_op_dynamic_scatter_nd_rule (ScatterND(T(data), Unsqueeze(Range(0, Gather(Shap
   negative axis means); Gather axis attr 0 / absent; Range start 0 / 1, delta 1 / 2; Unsqueeze axes [-1] / [1];
   transposed data = Transpose(data, axis to front) / data itself (axis 0) / an unrelated tensor with the same or a LARGER
   first dim (near-miss); axis dim static / symbolic (shared or distinct names); reduction absent / none / add / mul / max / min;
-  updates as input / Transpose(input); result transposed back or returned directly.
+  updates as input / Transpose(input); result transposed back or returned directly.  One deviation class per host, or "any".
   NOT enumerated: axis given as 1-element vector (Range needs scalars), Shape on non-input values, zero-size dims.
 
 expand_before_binary_op_rules (38 rules: Bin(Expand(x, s), y) and Bin(x, Expand(y, s)) for 19 ops)
@@ -27,11 +28,16 @@ expand_before_binary_op_rules (38 rules: Bin(Expand(x, s), y) and Bin(x, Expand(
   dims in {1,2,3}; x, y, s derived by dropping leading dims and replacing dims by 1 (so every near-miss where y does not supply
   the expanded dim appears), s = x.shape (no-op), s all ones, s shorter than x, s LONGER than both operands (leading 1s or
   leading >1); s as Constant / initializer / overridable initializer / Shape(z) of another input (dynamic, survives all feeds) /
-  raw int64 graph input (dynamic) / Concat of Shape slice and constant; operand as graph input with static / named symbolic /
+  Concat of Shape slice and constant (a raw int64 graph input as shape is not drawn: its value
+  would change between feeds and contradict sample-derived value_info); operand as graph input with static / named symbolic /
   operand-private symbolic / anonymous dims, Constant, initializer, or intermediate (shape only via value_info); value_info of the
   Expand output dropped so that only the op output is annotated (op output wrapped in Identity to make it an intermediate);
   extra consumer of the Expand output; integer divisors / shift amounts kept legal for every feed (constants or Abs+1 / Mod 8).
   NOT enumerated: bfloat16, string Equal, uint16, expand shape with -1 (illegal), zero-size dims, ops inside subgraphs.
+
+All categorical choices come from a numpy Generator seeded by six Hypothesis-drawn integers (class _Rng) and re-keyed with the
+payload of each new graph input: Hypothesis' own sampled_from clumps (mutation chains that copy integer draws around) and starved
+the 19x2 op grid at 150 cases; tensors and the host opset are still direct Hypothesis draws.
 """
 from __future__ import annotations
 
@@ -147,7 +153,7 @@ def host_scatter_static(g):
     usrc = rr.pick(["input", "input", "input", "const", "mid"])
     usym = sym if rr.chance(7) else rr.pick(["static", "named_other", "anon"])
     if usrc == "const":
-        updates = g.const_array(make_array(g.seed(), dt, ushape), how=rr.pick(["node", "init"]))
+        updates = g.const_array(make_array(g.seed(), dt, ushape), how=rr.pick(["node", "init", "ovinit"]))
     else:
         if usym in ("static",) or ushape[:1] != (n,):
             udims = list(ushape)
@@ -194,7 +200,7 @@ def host_scatter_dynamic(g):
         g.set_opset(rr.pick([16, 17, 18, 21, 23]))
     dt = rr.pick([F32, F32, F64, I64])
     # one deviation from the idiom at a time (plus "any" = all drawn independently)
-    dev = rr.pick(["none", "none", "none", "none", "shape", "shape", "gather", "range", "unsq", "td", "reduction", "reduction", "any"])
+    dev = rr.pick(["none", "none", "none", "none", "shape", "shape", "shape", "gather", "range", "unsq", "td", "reduction", "reduction", "any"])
     g.features.add(f"{tag}:dev_{dev}")
 
     def dv(kind, normal, others):
@@ -205,6 +211,13 @@ def host_scatter_dynamic(g):
         rank = rr.pick([2, 3])
         shape = tuple(rr.pick([1, 2, 3, 4]) for _ in range(rank))
         axis = rr.pick(list(range(-(rank - 1), 0)))
+        # Shape(data)[:-1][axis] is dim rank-1+axis, the rule reads data.shape[axis] = dim rank+axis: keep the true one the smaller
+        # of the two so that the scatter stays in range (a partial update when strictly smaller)
+        lo, hi = rank - 1 + axis, rank + axis
+        if shape[lo] > shape[hi]:
+            sl = list(shape)
+            sl[lo], sl[hi] = sl[hi], sl[lo]
+            shape = tuple(sl)
     else:
         rank = rr.pick([1, 2, 2, 3, 3])
         shape = tuple(rr.pick([1, 2, 3, 4]) for _ in range(rank))
@@ -411,7 +424,8 @@ def _operand(g, rr, dt, shape, who, role, tagset):
 def _shape_value(g, rr, s, tagset, y=None):
     """The expand target as a value; returns (Val, kind)."""
     s = tuple(int(d) for d in s)
-    kinds = ["const", "const", "const", "const", "shape_of", "shape_of", "input", "concat"]
+    # (a raw int64 graph input as the shape is NOT drawn: other feeds would change the shape under sample-derived value_info)
+    kinds = ["const", "const", "const", "const", "shape_of", "shape_of", "concat"]
     kind = rr.pick(kinds)
     if kind == "concat" and len(s) < 2:
         kind = "shape_of"
@@ -419,10 +433,6 @@ def _shape_value(g, rr, s, tagset, y=None):
     arr = np.asarray(s, dtype=np.int64)
     if kind == "const":
         return g.const_array(arr, how=rr.pick(["node", "init", "init", "ovinit"])), kind
-    if kind == "input":
-        v = g.add_input(I64, arr.shape)
-        v.arr[...] = arr
-        return v, kind
     if y is not None and tuple(y.shape) == s and rr.chance(5):
         z = y
     else:
@@ -466,7 +476,7 @@ def host_expand_before_binary_op(g):
     if not dts:
         return None
     dt = rr.pick(dts)
-    pos = rr.pick(["first", "first", "second", "second", "both"])
+    pos = rr.pick(["first", "first", "first", "second", "second", "second", "both"])
     tags = set()
 
     base = tuple(rr.pick([1, 2, 3, 2, 3]) for _ in range(rr.pick([1, 2, 2, 3])))
